@@ -4,7 +4,7 @@
 package paillier
 
 // bitlen(x): number of bits of |x| for a *saferith.Int / *saferith.Nat object (trusted spec of TrueLen).
-//@ spec fn bitlen(Int) Int
+
 
 // A ciphertext object always carries a number (set by the constructors here and by UnmarshalBinary).
 //@ typeinv[C05] Ciphertext := self.c != nil
@@ -12,12 +12,19 @@ package paillier
 //@ pred pkok(pk *PublicKey) := pk != nil && pk.n != nil && pk.n.Modulus != nil && pk.nSquared != nil && pk.nSquared.Modulus != nil && pk.nNat != nil && pk.nPlusOne != nil
 //@ pred pkvok(pk PublicKey) := pk.n != nil && pk.n.Modulus != nil && pk.nSquared != nil && pk.nSquared.Modulus != nil && pk.nNat != nil && pk.nPlusOne != nil
 
+// Value relations between the cached numbers of a public key (established by NewPublicKey) and the size of N
+// (established by ValidateN: exactly 2048 bits).
+//@ pred pkvals(pk *PublicKey) := natval(pk.n.Modulus) == natval(pk.nNat) && natval(pk.nSquared.Modulus) == natval(pk.nNat) * natval(pk.nNat) && natval(pk.nPlusOne) == natval(pk.nNat) + 1 && natval(pk.nNat) > 0
+//@ pred pkvvals(pk PublicKey) := natval(pk.n.Modulus) == natval(pk.nNat) && natval(pk.nSquared.Modulus) == natval(pk.nNat) * natval(pk.nNat) && natval(pk.nPlusOne) == natval(pk.nNat) + 1 && natval(pk.nNat) > 0
+//@ pred pkbig(pk *PublicKey) := natval(pk.nNat) >= pow2(2047)
+
 //@ func NewPublicKey
 //@   nopanic[C05]
 //@   modifies nothing
 //@   allocates
-//@   requires n != nil
+//@   requires n != nil && natval(n) > 0
 //@   ensures pkok(result)
+//@   ensures[C12] pkvals(result) && natval(result.nNat) == natval(n) && fresh(result)
 
 //@ func ValidateN
 //@   nopanic[C05]
@@ -29,17 +36,21 @@ package paillier
 //@   requires pkvok(pk)
 //@   modifies nothing
 //@   ensures result ==> each(cts, c, c != nil)
+//@   ensures[C12] result ==> each(cts, c, natval(c.c) < natval(pk.nSquared.Modulus) && coprime(natval(c.c), natval(pk.nSquared.Modulus)))
+//@   loop 1: invariant[C12] each(cts[:rangeindex+1], c, natval(c.c) < natval(pk.nSquared.Modulus) && coprime(natval(c.c), natval(pk.nSquared.Modulus)))
 //@   loop 1: invariant each(cts[:rangeindex+1], c, c != nil)
 
-// Documented panic: encrypting outside [-(N-1)/2, (N-1)/2]. For a validated 2048-bit N every
-// m with at most 2046 bits is inside the range (A-NT); the guard itself is under C12.
+// Encryption (C12): refuses (panics on) exactly the plaintexts outside [-(N-1)/2, (N-1)/2]; otherwise the
+// result is the textbook ciphertext (N+1)^m * nonce^N mod N^2.
 //@ func (PublicKey).EncWithNonce
 //@   nopanic[C05]
+//@   requires pkvok(pk) && pkvvals(pk) && m != nil && nonce != nil
+//@   use bits
+//@   panics_iff[C12] abs(natval(m)) > natval(pk.nNat) / 2
 //@   modifies nothing
 //@   allocates
-//@   requires pkvok(pk) && m != nil && nonce != nil && bitlen(m) <= 2046
-//@   panic_unreachable_under_requires
-//@   ensures result != nil
+//@   ensures result != nil && fresh(result)
+//@   ensures[C12] natval(result.c) == (modexp(natval(pk.nPlusOne), natval(m), natval(pk.nNat) * natval(pk.nNat)) * modexp(natval(nonce), natval(pk.nNat), natval(pk.nNat) * natval(pk.nNat))) % (natval(pk.nNat) * natval(pk.nNat))
 
 //@ func (*PublicKey).N
 //@   nopanic[C05]
@@ -71,8 +82,7 @@ package paillier
 
 //@ func (*Ciphertext).Add
 //@   nopanic[C05]
-//@   modifies nothing
-//@   allocates
+//@   modifies natval(ct.c)
 //@   requires ct != nil && pkok(pk)
 //@   ensures result == ct
 
@@ -81,6 +91,12 @@ package paillier
 //@   modifies Ciphertext.c@ct
 //@   requires ct != nil && pkok(pk)
 //@   ensures result == ct
+
+//@ func (*Ciphertext).Randomize
+//@   nopanic[C05]
+//@   requires ct != nil && pkok(pk)
+//@   modifies natval(ct.c)
+//@   ensures result != nil
 
 //@ func (*Ciphertext).Equal
 //@   nopanic[C05]
